@@ -148,7 +148,9 @@ func c01Getters(p *packet.Packet) *hx.Failure {
 	if p.IsNull() != (pid == 0x1fff) || packet.IsNull(p) != (pid == 0x1fff) {
 		return hx.Failf("get-isnull", "IsNull method=%v func=%v pid=%#x", p.IsNull(), packet.IsNull(p), pid)
 	}
-	if p.IsPAT() != (pid == 0) || packet.IsPat(p) != (pid == 0) {
+	// PAT classification: the statement fixes that the two styles agree; PID 0 with payload is a PAT packet and another PID
+	// is not - whether a PID-0 packet without payload counts is left open
+	if p.IsPAT() != packet.IsPat(p) || (pid != 0 && p.IsPAT()) || (pid == 0 && afc&1 != 0 && !p.IsPAT()) {
 		return hx.Failf("get-ispat", "IsPAT method=%v func=%v pid=%#x", p.IsPAT(), packet.IsPat(p), pid)
 	}
 	wantErr := p[0] != 0x47 || tsc == 1 || afc == 0
@@ -206,7 +208,11 @@ func c01Setters(orig *packet.Packet, pid, tsc, cc int, flag bool) *hx.Failure {
 func c01CC(orig *packet.Packet, cc int) *hx.Failure {
 	old := int(orig[3] & 0xf)
 	next := (old + 1) % 16
-	if f := c01Setter(orig, "inc-cc", map[int]byte{3: 0x0F}, func(p *packet.Packet) { p.IncContinuityCounter() }, func(p *packet.Packet) bool { return p.ContinuityCounter() == next }); f != nil {
+	if f := c01Setter(orig, "inc-cc", map[int]byte{3: 0x0F}, func(p *packet.Packet) { p.IncContinuityCounter() }, func(p *packet.Packet) bool {
+		// the in-place increment takes no value and is not among the statement's setters; ISO lets the counter of a packet
+		// without payload stand still, so there both outcomes are accepted (the copy-returning helpers are checked below)
+		return p.ContinuityCounter() == next || (orig[3]&0x10 == 0 && p.ContinuityCounter() == old)
+	}); f != nil {
 		return f
 	}
 	if f := c01Setter(orig, "zero-cc", map[int]byte{3: 0x0F}, func(p *packet.Packet) { p.ZeroContinuityCounter() }, func(p *packet.Packet) bool { return p.ContinuityCounter() == 0 }); f != nil {
